@@ -76,6 +76,7 @@ REGEXES = [
     r"\.m?js$", r"\.(png|jpe?g|svg)$", r"\.min\.[a-z]+$", r"\.d\.ts$", r"(?i)\.js$", r"(?i)\.py[co]?$", r"\.py[^/]*$",
     r"[^/]*\.tar\.gz$", r"~$", r"\.[a-z]+\.bak$", r"\$\$\$$", r"\.[^/.]*$", r"README", r"QZ[0-9]", r"LICEN[SC]E", r"\.PY",
     r".*", r"",
+    r"proj", r"^/",  # match only in the absolute location of the component dir, never in a file's name or relative path
 ]  # fmt: skip
 FLAG_SENSITIVE = [r"\.py$", r"\.js$", r"\.html$", r"\.css$", r"\.txt$", r"\.PY", r"README", r"\.m?js$"]
 STEMS = ["a", "x", "main", "a+b", "a.b", "A", "__init__", ".hid", "my-comp", "a b", "(1)", "a$", "README", "QZ7", "LICENSE", "é", "x.py", "x.js", "a.tar", "c"]
@@ -234,7 +235,9 @@ def run_case(case, col=None):
             if kind != "r":
                 continue
             for full, (R, rel, name, _) in on_disk.items():
-                if len({v.search(name) is not None, v.search(rel) is not None, v.search(full) is not None}) > 1:
+                # (file name vs path relative to the component dir: the two readings of "its name ... matches a pattern" must
+                # agree; the ABSOLUTE path - where the project happens to live - is no reading of it and may differ)
+                if len({v.search(name) is not None, v.search(rel) is not None}) > 1:
                     if col is not None:
                         col.case(None, False, labels=("skipped_position_dependent_regex",))
                     return []
